@@ -81,6 +81,46 @@ def rounded_arg(e):
     return inner
 
 
+def _fold_step_temporaries(body, rest):
+    """A name bound once per step by a plain assignment, before all of its uses, to a call-free arithmetic expression that
+    does not mention the remainder (`scale = 2 ** d`) only names that expression: its uses read the expression directly.
+    The operands of such an expression are themselves bound once per step, so nothing can change between the binding and a use."""
+    import copy
+    body = list(body)
+    counts = {}
+    for st in body:
+        for n in ast.walk(st):
+            if isinstance(n, ast.Name) and isinstance(n.ctx, ast.Store):
+                counts[n.id] = counts.get(n.id, 0) + 1
+        if isinstance(st, ast.AugAssign) and isinstance(st.target, ast.Name):
+            counts[st.target.id] = counts.get(st.target.id, 0) + 1
+    changed = True
+    while changed:
+        changed = False
+        for i, st in enumerate(body):
+            if not (isinstance(st, ast.Assign) and len(st.targets) == 1 and isinstance(st.targets[0], ast.Name) and counts.get(st.targets[0].id) == 1):
+                continue
+            name, val = st.targets[0].id, st.value
+            if any(isinstance(n, ast.Call) for n in ast.walk(val)) or A.contains_name(val, rest) or A.contains_name(val, name):
+                continue
+            if any(counts.get(n.id, 0) > 1 for n in ast.walk(val) if isinstance(n, ast.Name)):
+                continue
+            used_before = any(A.contains_name(b, name) for b in body[:i])
+            used_in_tuple = any(isinstance(c, ast.Call) and isinstance(c.func, ast.Attribute) and c.func.attr == "append" and A.contains_name(c, name) for b in body for c in ast.walk(b))
+            if used_before or used_in_tuple:
+                continue
+
+            class R(ast.NodeTransformer):
+                def visit_Name(self, n):
+                    return copy.deepcopy(val) if n.id == name and isinstance(n.ctx, ast.Load) else n
+            body = body[:i] + [R().visit(b) for b in body[i + 1:]]
+            for b in body:
+                ast.fix_missing_locations(b)
+            changed = True
+            break
+    return body
+
+
 def check_expansion(ctx, rule="C19", only=None, default_tolerance_only=False):
     """only: iterable of sub-rule letters to evaluate (None = all)"""
     repo, ev = ctx.repo, ctx.ev
@@ -89,6 +129,8 @@ def check_expansion(ctx, rule="C19", only=None, default_tolerance_only=False):
     if fn is None:
         raise AnalysisError("state_prep.get_angle_spec_from_float not found")
     ctx.fn("state_prep.get_angle_spec_from_float")
+    import copy
+    fn = copy.deepcopy(fn)  # the loop body is rewritten below (per-step temporaries folded); everything is judged on this copy
     want = lambda letter: only is None or letter in only
     R = lambda letter: f"{rule}.{letter}" if rule == "C19" else rule
     params = A.param_names(fn)
@@ -145,6 +187,7 @@ def check_expansion(ctx, rule="C19", only=None, default_tolerance_only=False):
         ctx.check(R("M"), "get_angle_spec_from_float:remainder-in-units-of-pi", units,
                   f"the remainder is not initialised as {angle} / pi; the steps n / 2^d are fractions of pi", repo.loc(m, fn))
     # ---- roles inside the loop
+    lp.body = _fold_step_temporaries(lp.body, rest)
     body = lp.body
     defs = {}
     order = []
